@@ -306,7 +306,7 @@ def _finish(module, tier, seed, blocks, results, capped, t0):
             again = None
             internal.append("replay of %s raised %r" % (g["oracle"], e))
         if again is not None and not again:
-            reproduced = "not on the isolated case (history-dependent)"
+            reproduced = "history-only (observed during the exploration; recurs neither on the isolated case nor when its block is re-run alone)"
             try:
                 rec2 = Recorder(pid, ex.get("block"), seed)
                 module.run_block(ex.get("block"), rec2)
